@@ -3851,7 +3851,9 @@ class ControlConnection(object):
 
         if not self._schema_meta_enabled and not force:
             log.debug("[control connection] Skipping schema refresh because schema metadata is disabled")
-            return False
+            # Nothing to refresh. The only consumer of this result is refresh_schema_and_set_result,
+            # which records it as ResponseFuture.is_schema_agreed, so report the agreement outcome.
+            return bool(agreed)
 
         if not agreed:
             log.debug("Skipping schema refresh due to lack of schema agreement")
